@@ -469,6 +469,18 @@ def _operate_sync(
                         promise = Promise(promise)
                     yield (promise, candidate)
             else:
+                # If creating the object would have to wait for a
+                # promise, wait with the whole sync entry: otherwise
+                # the nested `sync` below does not find the deferred
+                # object and creates a second one.
+                try:
+                    for v in (find_args.attributes | obj.get("set", {})).values():
+                        if isinstance(v, Promise | _ObjectFinder):
+                            _resolve(promises, parent, v)
+                except _UnresolvablePromise as p:
+                    yield p.args[0], {"parent": parent, "sync": {attr: [obj]}}
+                    continue
+
                 newobj_props = (
                     find_args.attributes
                     | obj.pop("set", {})
